@@ -56,7 +56,7 @@ class Execution(object):
     def __init__(self, h):
         self.h = h
         self.main_fn, self.monitor, self.root = h.fresh()
-        self.sched = vmp.Sched(pipe_capacity=h.pipe_capacity, io_points=h.io_points, monitor=self.monitor, root=self.root)
+        self.sched = vmp.Sched(pipe_capacity=h.pipe_capacity, io_points=h.io_points, monitor=self.monitor, root=self.root, contended_timeouts=getattr(h, "contended_timeouts", False))
         self.patch = vmp.Patched(self.sched)
         self.patch.__enter__()
         try:
